@@ -21,6 +21,9 @@ LABELS = {
     "float": [0.5, 1.5, 2.0, 10.0, 10.5, 33.0],
     "str": ["a", "b", "cc", "d", "ee", "f"],
     "range": [0, 1, 2, 3, 4, 5],
+    # a wide universe of float levels (token t -> t/2): many requested labels at once
+    "wide": [t * 0.5 for t in range(80)],
+    "widestr": [f"k{t:02d}" for t in range(80)],
 }
 
 VAR_FUNCS = {"var", "nanvar"}
@@ -53,7 +56,9 @@ def label_array(codes, kind: str) -> np.ndarray:
         return np.array([math.nan if c < 0 else tab[c] for c in codes], dtype=float)
     if any(c < 0 for c in codes):
         raise ValueError("missing labels need label_kind='float'")
-    if kind == "str":
+    if kind == "wide":
+        return np.array([math.nan if c < 0 else tab[c] for c in codes], dtype=float)
+    if kind in ("str", "widestr"):
         return np.array([tab[c] for c in codes], dtype=object)
     return np.array([tab[c] for c in codes], dtype=np.int64)
 
@@ -91,7 +96,7 @@ def build_kwargs(case) -> dict:
     if case.get("req") is not None:
         tab = LABELS[kind]
         vals = [tab[t] for t in case["req"]]
-        kw["expected_groups"] = np.array(vals, dtype=object if kind == "str" else None)
+        kw["expected_groups"] = np.array(vals, dtype=object if kind in ("str", "widestr") else None)
     if not case.get("sort", True):
         kw["sort"] = False
     if case.get("fill") is not None:
